@@ -13,7 +13,7 @@ invariant size == sum |data[m]| (proved at every lock release) the ledger
 Thread interleavings are covered by rely/guarantee: pop / drain_metric are verified under
 arbitrary interference G_R* of the storing thread between their atomic steps.
 """
-from pyvc.runner import Unit, Property
+from pyvc.runner import Unit, Property, Bounded
 from . import cache_units as CU
 from . import c02_query
 
@@ -36,6 +36,11 @@ def build():
   ] + c02_query.units()
   return Property(
     'C02', units,
+    bounded=[Bounded('C02/native/cache_contracts_cross_check', 'replay/cache_native.py',
+                     ['--sweep', '3', 'accept_view,lastwrite,frame_others,same_metric_other_timestamps,size_exact,new_metrics,sorted_unique,items_exact,removed,size'],
+                     ['--sweep', '4', 'accept_view,lastwrite,frame_others,same_metric_other_timestamps,size_exact,new_metrics,sorted_unique,items_exact,removed,size'],
+                     'every sequential store/drain history of length <= 3 (quick) / 4 (thorough) over 2 metrics x 2 timestamps, MAX_CACHE_SIZE in {1,2,3,inf}, flow control on/off, all seven strategy settings, against a reference dict',
+                     "cross-check of the contracts' clauses on the real code by exhaustive short histories (it also stands in when the symbolic engine cannot process a changed function); the clauses themselves are discharged obligations above")],
     trusted_base=['A-ENGINE', 'A-SMT', 'A-GIL', 'A-THREADS', 'A-LIB(dict/defaultdict/deque/sorted models)', 'A-PICKLE'],
     assumptions=[
       "A-GIL: one dict/attribute bytecode operation is atomic; threading.Lock is a mutex",
